@@ -69,7 +69,11 @@ Judge ==
      ELSE IF CmpLog("model:normal", tn.log, rn.fills) # "ok" THEN CmpLog("model:normal", tn.log, rn.fills)
      ELSE IF tn.bal # rn.bal THEN "model:normal:balance"
      \* 2. C12 on the real runs: inside antecedent + quantifier both simulators must have done the same
-     ELSE IF pre = "ok" /\ RealDiff(rn, rf) # "ok" THEN "c12:" \o RealDiff(rn, rf)
+     \*    (a difference that the model explains by the known defect class - a fill in a gapped minute inside a chunk, model
+     \*     and code agreeing fill for fill - is reported under that class)
+     ELSE IF pre = "ok" /\ RealDiff(rn, rf) # "ok"
+          THEN IF tf.gap /\ fstat = "run" /\ rf.exc = "none" /\ tf.log = rf.fills /\ tf.bal = rf.bal THEN "c12:inner-gap-fill"
+               ELSE "c12:" \o RealDiff(rn, rf)
      \* 3. the model must describe the fast simulator
      ELSE IF (fstat = "run") # (rf.exc = "none") THEN "model:fast:exception-" \o (IF fstat = "run" THEN "unexpected" ELSE "missing")
      ELSE IF fstat # "run" THEN "ok"
